@@ -99,6 +99,32 @@ def check(chk):
     chk.judge('await self._write_queue.get()' in sh and 'await self._loop.sock_sendall(self._socket, next_msg)' in sh, 'C11.consumer', hw,
               'handle_write awaits each sendall before taking the next chunk', 'the consumer no longer sends chunks one after the other')
 
+    # every byte of a chunk is written: complete-send primitives, or a partial send whose remainder is put back at the head of the queue
+    chk.rule('C11.complete', 'socket writes in the reactors: sendall / sock_sendall / transport.write, or `n = send(chunk)` with `if n < len(chunk): appendleft(chunk[n:])`; a send() whose count is dropped loses the unsent tail')
+    nsend = 0
+    for rel in (ASYNCIO, TWISTED, LIBEV, ASYNCORE, 'cassandra/io/geventreactor.py', 'cassandra/io/eventletreactor.py'):
+        m = chk.repo.mod(rel)
+        for q, f in m.functions():
+            for c in body_walk(f):
+                if not (isinstance(c, ast.Call) and isinstance(c.func, ast.Attribute) and c.func.attr == 'send' and len(c.args) == 1 and src(c.func.value) in ('self', 'self._socket', 'sock', 'self.socket')):
+                    continue
+                nsend += 1
+                st = parent(c)
+                arg = src(c.args[0])
+                ok = False
+                if isinstance(st, ast.Assign) and isinstance(st.targets[0], ast.Name):
+                    n_ = st.targets[0].id
+                    ok = any(isinstance(x, ast.If) and src(x.test) == '%s < len(%s)' % (n_, arg) and
+                             any(isinstance(y, ast.Call) and src(y.func).endswith('.appendleft') and src(y.args[0]) == '%s[%s:]' % (arg, n_) for y in ast.walk(x)) for x in body_walk(f))
+                chk.judge(ok, 'C11.complete', c, '%s: %s - count kept, unsent tail re-queued at the head' % (q, src(c)),
+                          'the number of bytes accepted by send() is not used: on a short write (full kernel buffer) the rest of the chunk is silently dropped and the peer receives a truncated frame')
+        for q, f in m.functions():
+            if q.endswith('.handle_write'):
+                prim = [src(c.func) for c in body_walk(f) if isinstance(c, ast.Call) and isinstance(c.func, ast.Attribute) and c.func.attr in ('sendall', 'sock_sendall', 'send')]
+                chk.judge(bool(prim), 'C11.complete', f, '%s writes through %s' % (q, sorted(set(prim))), 'no socket write found in %s' % q, nontrivial=False)
+    if nsend < 2:
+        raise AnalysisError('partial send sites: expected the asyncore and libev ones, found %d' % nsend)
+
     # twisted
     tm = chk.repo.mod(TWISTED)
     tp = tm.func('TwistedConnection.push')
